@@ -44,6 +44,8 @@ def tt(name, d, nsym=None, rsym=None, label=True, dt='f'):
         c = ARR((r0, n, r1), dt)
         from .poly import Lin as _Lin
         c.lg = _Lin(0)           # stored value = true value * 2**0
+        c.cnt = (ONE, ONE)
+        c.note = 'input'         # arbitrary caller data (survives copies)
         if label:
             c.org = frozenset([('E', name, k)])
         cores.append(c)
@@ -117,7 +119,9 @@ ENTRY = {
     'act_one.interface': [dict(Y='tt'),
                           dict(Y='tt', i='i[d]', ltr=L(True), norm=L(None)),
                           dict(Y='tt', P='plist', norm=L('natural')),
-                          dict(Y='tt', P='plist', i='i[d]', ltr=L(True))],
+                          dict(Y='tt', P='plist', i='i[d]', ltr=L(True)),
+                          dict(Y='tt', norm=L('natural')),
+                          dict(Y='tt', norm=L('natural'), ltr=L(True))],
     'act_one.get': [dict(Y='tt', i='i[d]'), dict(Y='tt', i='I[m,d]')],
     'act_one.get_and_grad': [dict(Y='tt', i='i[d]')],
     'act_one.get_many': [dict(Y='tt', I='I[m,d]')],
